@@ -94,7 +94,7 @@ def _reset_before_use(P, wbody, wblk, f):
     return True
 
 
-def rule_R1(ctx):
+def rule_R1(ctx, rule="R1"):
     P = ctx.program
     fields = {}
     for path, adt in P.adts.items():
@@ -104,9 +104,9 @@ def rule_R1(ctx):
             if any(k in f["ty"] for k in IMUT):
                 fields[(path, f["name"])] = f["ty"]
     ctx.extra["interior_mutable_fields"] = ["%s.%s: %s" % (p.split("::", 1)[1], n, ty[:60]) for (p, n), ty in sorted(fields.items())]
-    ctx.floor("R1", "interior-mutable struct fields in the workspace", len(fields), 8)
+    ctx.floor(rule, "interior-mutable struct fields in the workspace", len(fields), 8)
     roots, reach = _reach(P)
-    ctx.floor("R1", "per-packet entry points", len(roots), 7)
+    ctx.floor(rule, "per-packet entry points", len(roots), 7)
     ctx.extra["per_packet_reachable_bodies"] = len(reach)
     fnames = {n for (_, n) in fields}
     nwrites = 0
@@ -130,18 +130,18 @@ def rule_R1(ctx):
             owner = [p for (p, n2) in fields if n2 == f]
             key = "%s.%s<-%s" % (owner[0].split("::")[-1] if owner else "?", f, T.short(b.path))
             if f in ALLOW_FIELDS:
-                ctx.ok("R1", key, "allowed shared state (statistics / shutdown / channel)", ctx.loc(b, blk))
+                ctx.ok(rule, key, "allowed shared state (statistics / shutdown / channel)", ctx.loc(b, blk))
             elif _reset_before_use(P, b, blk, f):
-                ctx.ok("R1", key, "field is re-initialised (fresh value stored) before every use on the per-message path: no state survives from an earlier connection", ctx.loc(b, blk))
+                ctx.ok(rule, key, "field is re-initialised (fresh value stored) before every use on the per-message path: no state survives from an earlier connection", ctx.loc(b, blk))
             else:
-                ctx.fail("R1", key,
+                ctx.fail(rule, key,
                          "per-packet code writes `%s` (%s), state that is shared by all connections handled by this object: what one connection leaves there "
                          "is visible when the next connection is analysed" % (f, fields.get((owner[0], f), "?")[:50] if owner else "?"), ctx.loc(b, blk))
     # statics with interior mutability
     for b in reach.values():
         for blk, t in b.calls():
             pass
-    ctx.check(True, "R1", "scan", "%d write-style calls on interior-mutable fields examined in %d reachable bodies" % (nwrites, len(reach)))
+    ctx.check(True, rule, "scan", "%d write-style calls on interior-mutable fields examined in %d reachable bodies" % (nwrites, len(reach)))
 
 
 def rule_R2_R3(ctx):
@@ -215,6 +215,16 @@ def rule_R2_R3(ctx):
               "per-flow data is written through something other than the looked-up entry", ctx.loc(b, bad[0]) if bad else None)
 
 
+def rule_other_caches(ctx):
+    """the TLS reassembly cache and the TCP timestamp tracker are keyed by the packet's own connection too (shared with C08.R3, C19.R2/R4)"""
+    from ..engine import report as R
+    from . import C08, C19
+    C08.rule_flow(R.Retag(ctx, "C08."))
+    C19.rule_R1_R2(R.Retag(ctx, "C19."))
+    C19.rule_R4(R.Retag(ctx, "C19."))
+
+
 def run(ctx):
+    rule_other_caches(ctx)
     rule_R1(ctx)
     rule_R2_R3(ctx)
